@@ -1,7 +1,9 @@
 """C06: the static hypotheses of the pipeline-level data-flow theorem (`C06_pieces_flow`, lean/PfModel/Props/C06Flow.lean) are
 evaluated by the driver (`flow.wf`) for every `fixed_indices` dictionary of every generated sequence of parts: whenever the model's
 `_validate_fixed_indices` accepts the request, `flowWF` must hold and the output names of the full run's store must be unique —
-otherwise the theorem does not speak about that case (a gap of the model, reported as a correspondence item)."""
+otherwise the theorem does not speak about that case (a gap of the model, reported as a correspondence item).
+Round 3: for requests on a pipeline that satisfies C01's `Conforms` the hypothesis is a theorem (`C06_flowWF_of_conforms`,
+lean/PfModel/Props/C06FlowWF.lean); the driver reports `conforms` and the harness counts derived vs merely evaluated cases."""
 from __future__ import annotations
 
 
@@ -10,7 +12,7 @@ def add_reqs(jobs):
     request is appended to the first job of the group (whose first request is `pieces.run`)"""
     groups: dict = {}
     for job in jobs:
-        if job.get("kind") not in ("pieces", "pieces2", "sub-pieces", "malformed", "sub-malformed"):
+        if job.get("kind") not in ("pieces", "pieces2", "sub-pieces", "malformed", "sub-malformed", "internal-axis"):
             continue
         if not job.get("reqs") or job.get("resp_from") is not None or job["reqs"][0].get("m") != "pieces.run":
             continue                    # a run under another mode shares the answers of the sequential job
@@ -31,8 +33,16 @@ def judge(ctx, job, case, resp):
     if "err" in r:
         ctx.count(f"flowWF:no full run ({r['err']})")
         return
+    conf = r.get("conforms")
+    ctx.count(f"flowWF-derivation:pipeline {'conforms (C01.Conforms): flowWF is a theorem for every accepted request' if conf else 'does NOT conform: flowWF only evaluated'}")
     for fx, wf, acc in zip(job["flow"], r["wf"], r["accepted"]):
         ctx.count(f"flowWF:{'holds' if wf else 'fails'},request {'accepted' if acc else 'refused'} by _validate_fixed_indices")
+        if acc:
+            ctx.count("flowWF-derivation:accepted request, " + ("derived (C06_flowWF_of_conforms)" if conf else "evaluated only"))
+        if conf and acc and not wf:       # impossible by C06_flowWF_of_conforms: the driver would not be running the proved definitions
+            ctx.violation({**case, "fixed": fx}, f"the request {fx} is accepted and the pipeline conforms, yet the driver evaluates flowWF to false "
+                          "(contradicts C06_flowWF_of_conforms)", found_input=False, item="correspondence:flowWF-derived", key="flowWF-derived",
+                          impl=None, model=r)
         if acc and not (wf and r["nodup"]):
             ctx.violation({**case, "fixed": fx}, f"the request {fx} passes _validate_fixed_indices but the static hypotheses of C06_pieces_flow "
                           f"fail (flowWF={wf}, unique output names={r['nodup']}): the data-flow theorem does not cover this case",
